@@ -14,13 +14,13 @@ from tools.props import c03_gen as G
 
 MANIFEST = {
     "level_text": "Coq theorems (Properties/C03.v, no axioms) about a Gallina transcription of parse_and_cache_all_files (walk, acceptance test on the directory components of the path below the project path, files that cannot be read or parsed are reported and skipped), the per-file loop under every iteration order of the AST cache, is_tauri_command on top-level Item::Fn, and one wrapper per CommandInfo: for every well-formed layout, every spelling of the project path and every file order, with no known-finding premise, the wrapper list is a permutation of the component-wise specification (annotated top-level functions of .rs files with no target/.git directory component); an unparsable or non-UTF-8 file removes exactly its own wrappers. The two formerly recorded defects (C03-1 root below target/.git, C03-2 non-UTF-8 file aborts the run) are repaired; their witnesses are positive theorems in Coq and ordinary regression cases of the corpus. The model is tied to /repo on every run: the real CLI (both modes) and the library analysis run on generated directory layouts and are compared with the extracted model; commands.ts is read back with the extracted module parser and judged by the extracted oracle.",
-    "level_note": "Trusted: Coq kernel; the tie between hand-written model and code is differential (bounded); syn is outside the model (a file is Parsed items / Unparsable / NotUtf8 and Path::strip_prefix(project_path) of a walked path is taken to give back the components below the root, which holds for every path WalkDir builds by joining; and the python printer renders items to Rust source); the AST cache (a HashMap keyed by path) is a list of the walked files and its iteration order an arbitrary permutation, which is exact when sibling names are distinct (layout_ok); Tera is modelled by one wrapper record per CommandInfo (the token-level template transcription of Model/Pipeline.v is related to it by a computed example and by the differential check, not by a general proof); the translated return type is whatever Model/C03RetType.rt_ret_ts computes (own transcription of parse_type_structure with top-level comma splitting, the default type visitor and add_types_prefix with the recursive array branch; that the translation is the right one is C05); the Rust name of a command declared with a raw identifier is the identifier without r# (C03RetType.unraw in the model, C03Spec.rust_name in the specification, proved equal). Symlinks, unreadable directories, a project path that is a file, non-UTF-8 file names and Windows path separators are outside the model.",
+    "level_note": "Trusted: Coq kernel; the tie between hand-written model and code is differential (bounded); syn is outside the model (a file is Parsed items / Unparsable / NotUtf8 and Path::strip_prefix(project_path) of a walked path is taken to give back the components below the root, which holds for every path WalkDir builds by joining; and the python printer renders items to Rust source); the AST cache (a HashMap keyed by path) is a list of the walked files and its iteration order an arbitrary permutation, which is exact when sibling names are distinct (layout_ok); Tera is modelled by one wrapper record per CommandInfo (the token-level template transcription of Model/Pipeline.v is related to it by a computed example and by the differential check, not by a general proof); the translated return type is whatever Model/C03RetType.rt_ret_ts computes (own transcription of parse_type_structure with top-level comma splitting, the default type visitor and add_types_prefix with the recursive array branch; that the translation is the right one is C05); the Rust name of a command declared with a raw identifier is the identifier without r# (C03RetType.unraw in the model, C03Spec.rust_name in the specification, proved equal). Symbolic links below the project path are inside the model (NLink: a link that resolves to a regular file is an .rs file under the name and place of the link, for the code through path.is_file()/read_to_string and for the specification by decision; links to directories are not followed by WalkDir and the specification reads the recursion of the property text as the directory tree proper, dangling links are no files). A project path that itself is or passes through a symbolic link, unreadable directories, a project path that is a file, non-UTF-8 file names and Windows path separators are outside the model.",
     "technique": "Rocq/Coq proof over hand-written model + correspondence check (extracted OCaml vs real CLI and Rust harness)",
     "design_ref": "DESIGN.md section 5 C03, section 11 accepted_spec",
 }
 
 RULE = ("layouts: random trees of 1-8 files, depth <= 4, directory names drawn from {target, .git, near misses, y.rs, ...}, "
-        ".rs / non-.rs / odd file names, parsed / unparsable / non-UTF-8 contents, item mixes (top-level fns, impl methods, "
+        ".rs / non-.rs / odd file names, symbolic links (35 % of the layouts: to a regular file outside or inside the root incl. below target/.git, with .rs and other link and target names; to a directory outside or to .; dangling), parsed / unparsable / non-UTF-8 contents, item mixes (top-level fns, impl methods, "
         "inline mods, other items; command attribute spellings, near-miss attributes, other attributes in any order), "
         "function names incl. raw identifiers (r#type, r#match, r#move), return types over String/bool/i32/u8/f64/()/User/Item under Result/Option/Vec/HashMap/BTreeMap/tuples (depth <= 2, incl. Ok arms and tuple elements that print a comma and arrays of unions), "
         "x root spellings (absolute, relative, ./, ., trailing slash, roots below or named target/.git - the former class C03-1, now ordinary inputs); "
@@ -32,7 +32,7 @@ TRUSTED = ["tools/props/c03_gen.py renders items to Rust source (trusted printer
            "Spec/TsModule.v module parser + Spec/C03Spec.invokes extractor read commands.ts (specification of the emitted TypeScript subset, unproven)",
            "Spec/C03Spec.c03_ok multiset comparison is the run-time oracle (perm_b proved sound and complete w.r.t. Permutation in Proofs/C03Proofs.v)"]
 ASSUMPTIONS = ["sibling directory entries have distinct names and names contain no slash (layout_ok; true of every real directory)",
-               "the project path is spelled without .. and reaches its files without symlinks (path_string; strip_prefix succeeds)"]
+               "the project path is spelled without .. and is not itself reached through a symbolic link (path_string; strip_prefix succeeds); links BELOW it are modelled"]
 
 
 def has_cmd_attr(case):
